@@ -579,6 +579,8 @@ struct RoundSpec {
     /// Tails whose last event is NOT dispatched (`lost`: a well-formed call the provider never got to emit):
     ///   2: `data: <lost>\n` (LF body missing its final blank line); 3: `data: <lost>` (no line end at all);
     ///   6: `data: [DONE]\n\n` and then `data: <lost>\r\n\r` (after the marker: the stream has ended).
+    ///   8: `data: [DONE]\n\n` and then `data: <lost>\n\n` (a properly terminated event AFTER the marker: dropped by
+    ///      truncate_after_done when it arrives in the same network chunk, never read when it arrives later).
     ///   7: a body without a single byte ("provider stream ended before first byte": provider_error).
     #[serde(default)]
     tail: u8,
@@ -659,6 +661,7 @@ fn render_body(spec: &RoundSpec) -> (Vec<u8>, Rng) {
         3 => s.push_str(&format!("data: {}", lost())),
         5 => s.push_str("data: [DONE]\r\n\r"),
         6 => s.push_str(&format!("data: [DONE]\n\ndata: {}\r\n\r", lost())),
+        8 => s.push_str(&format!("data: [DONE]\n\ndata: {}\n\n", lost())),
         _ => {
             if spec.done {
                 s.push_str("data: [DONE]\n\n");
@@ -724,7 +727,7 @@ fn gen_tail(r: &mut Rng, events: &mut Vec<Value>, expected: &mut Option<Vec<ExpC
     if !r.chance(2, 5) {
         return (0, None);
     }
-    let tail = *r.pick(&[1u8, 1, 1, 4, 5, 2, 3, 6]);
+    let tail = *r.pick(&[1u8, 1, 1, 4, 5, 2, 3, 6, 8]);
     match tail {
         1 | 4 => {
             if events.is_empty() {
@@ -1796,7 +1799,7 @@ fn corpus_loops() -> Vec<LoopCase> {
         thread: false,
         rounds: vec![RoundSpec { mode: 0, events: vec![json!({"type":"response.created","response":{"id":"resp_1"}}), call(0, "fc_1", "call_1", "write", &w("t1"))], done: false, expected: Some(vec![exp("call_1", "t1")]), render: 10, tail: 4, lost: None }, end.clone()],
     });
-    for (prompt, tail) in [("tail_lf_noblank", 2u8), ("tail_lf_noeol", 3), ("tail_call_after_done", 6)] {
+    for (prompt, tail) in [("tail_lf_noblank", 2u8), ("tail_lf_noeol", 3), ("tail_call_after_done", 6), ("tail_event_after_done", 8)] {
         v.push(LoopCase {
             stateless: tail == 3,
             tool_choice: json!("auto"),
